@@ -150,6 +150,7 @@ Fixpoint keep_shapes (i : nat) (cores : tt R) (shp : list (nat * nat)) (excl : l
 
 Definition getitem_ttm (x : ttm R) (ix : list ixitem) : gres :=
   if (0 <? length (filter is_ell ix))%nat then GE ENotImpl else
+  if Nat.odd (length ix) then GE EArgs else          (* as many row indices as column indices (InvalidArguments; the pinned code ignored a surplus index) *)
   let h := (length ix / 2)%nat in
   match gi_loop4 (firstn h ix) (firstn h (skipn h ix)) x [] [] 0 [] with
   | inl e => GE e
